@@ -405,7 +405,7 @@ if names_clause("C15") is not None:
 from .. import decoders as D  # noqa: E402
 from ..envcheck import env_clauses  # noqa: E402
 
-CLAUSES.extend(env_clauses("C15", ("pus",)))
+CLAUSES.extend(env_clauses("C15", ("pus",), more_of="Service1Tm.unpack", more=12))
 
 PROPERTY = Property(
     id="C15",
